@@ -1,6 +1,10 @@
 import JunoModel.C13.ProofsToy2
 import JunoModel.C13.ProofsImage
 import JunoModel.C13.Tendermint
+import JunoModel.C13.ProofsShape
+import JunoModel.C13.ProofsInv
+import JunoModel.C13.ProofsStop
+import JunoModel.C13.ProofsSync
 /-!
 C13 — property theorems (statements only; proofs are in `Proofs*.lean`, `UpTo.lean`,
 `Tendermint.lean`). Every theorem in this module is an obligation listed in evidence/C13.json.
@@ -117,6 +121,50 @@ theorem recovered_timers_equal_live_timers {S} (M : Machine S) (r : Setoid S)
         t ∈ timersOf (recover M n).2.1) :=
   recover_timers_upTo hs c0 n hist hm
 
+/-- **Error exits are crash points.** `execute` returns an error — and the driver performs nothing
+further — when a `Flush` fails or the commit listener refuses a commit; `Run` returns and its
+deferred `Close` flushes the pending batch (`closeOK`; or fails as well). For the first process and
+for a process restarted at ANY moment of any history, at ANY flush or delivery of its live trace:
+the image the stopped process leaves is the image of a process death at a boundary of the same
+trace — a `Moment` — with the same votes broadcast. Hence `recovery_equals_live_run`,
+`no_conflicting_vote_after_recovery`, `recovered_timers_equal_live_timers` hold for a restart after
+an error stop, and nothing was made visible after the failing effect (`stop_visible`). -/
+theorem error_stop_is_a_crash_point {S} (M : Machine S) (c0 : Nat) :
+    (∀ (ins : List Input), ListenOK M (M.init (c0 + 1)) ins →
+      ∀ (pre : List Effect) (x : Effect) (post : List Effect),
+      (liveRun M (M.init (c0 + 1)) ins).2 = pre ++ x :: post →
+      (x = Effect.flush ∨ ∃ h v, x = Effect.deliver h v) → ∀ closeOK : Bool,
+      ∃ hist, Moment M c0 (applyEffects (Node.fresh c0)
+          (stopTrace (liveRun M (M.init (c0 + 1)) ins).2 pre.length closeOK)) hist ∧
+        votesOf hist = votesOf pre) ∧
+    (∀ (n : Node) (hist : List Effect), Moment M c0 n hist →
+      ∀ (cont : List Input), ListenOK M (recover M n).1 cont →
+      ∀ (pre : List Effect) (x : Effect) (post : List Effect),
+      (liveRun M (recover M n).1 cont).2 = pre ++ x :: post →
+      (x = Effect.flush ∨ ∃ h v, x = Effect.deliver h v) → ∀ closeOK : Bool,
+      ∃ hist', Moment M c0 (applyEffects (recover M n).2.2
+          (stopTrace (liveRun M (recover M n).1 cont).2 pre.length closeOK)) hist' ∧
+        votesOf hist' = votesOf (hist ++ (recover M n).2.1 ++ pre)) :=
+  ⟨fun ins ok pre x post h hx c => error_stop_moment_first M c0 ins ok pre x post h hx c,
+   fun n hist hm cont okc pre x post h hx c =>
+     error_stop_moment_resumed M c0 n hist hm cont okc pre x post h hx c⟩
+
+/-- **No conflicting vote after an error stop**: the first process stops because a `Flush` failed or
+a commit was refused (at any such effect of its trace), is restarted and processes any inputs. -/
+theorem no_conflicting_vote_after_error_stop {S} (M : Machine S) (r : Setoid S)
+    (hs : ReplaySafeUpTo M r) (ne : NoEquivocation M) (c0 : Nat) (ins : List Input)
+    (ok : ListenOK M (M.init (c0 + 1)) ins) (pre : List Effect) (x : Effect) (post : List Effect)
+    (hsplit : (liveRun M (M.init (c0 + 1)) ins).2 = pre ++ x :: post)
+    (hx : x = Effect.flush ∨ ∃ h v, x = Effect.deliver h v) (closeOK : Bool) (cont : List Input) :
+    let n := applyEffects (Node.fresh c0)
+      (stopTrace (liveRun M (M.init (c0 + 1)) ins).2 pre.length closeOK)
+    ListenOK M (recover M n).1 cont →
+    ∀ v ∈ votesOf pre, ∀ w ∈ votesOf ((recover M n).2.1 ++ (liveRun M (recover M n).1 cont).2),
+      ¬ v.conflicts w := by
+  intro n okc v hv
+  obtain ⟨hist, hm, hvv⟩ := error_stop_moment_first M c0 ins ok pre x post hsplit hx closeOK
+  exact no_conflict_upTo hs ne c0 n hist hm cont okc v (by rw [hvv]; exact hv)
+
 /-- **Regular stop and restart.** `Run` returns (context cancelled or a listener closed, both only
 in the select loop) and its deferred `db.Close()` flushes the pending batch — also entries of
 inputs that made nothing visible and were never flushed before. A process restarted on that image
@@ -127,6 +175,16 @@ theorem regular_stop_recovers_exact_state {S} (M : Machine S) (hs : ReplaySafe M
       ((liveRun M (M.init (c0 + 1)) ins).2 ++ [Effect.flush]))).1 =
       (liveRun M (M.init (c0 + 1)) ins).1 :=
   Juno.C13.regular_stop_recovers_exact_state M hs c0 ins ok
+
+/-- The same for machines that satisfy the hypotheses up to `≈` only (as juno's): the process
+restarted after a regular stop is `≈` the stopped one. -/
+theorem regular_stop_recovers_state_up_to {S} (M : Machine S) (r : Setoid S)
+    (hs : ReplaySafeUpTo M r) (c0 : Nat) (ins : List Input)
+    (ok : ListenOK M (M.init (c0 + 1)) ins) :
+    r.r (recover M (applyEffects (Node.fresh c0)
+      ((liveRun M (M.init (c0 + 1)) ins).2 ++ [Effect.flush]))).1
+      (liveRun M (M.init (c0 + 1)) ins).1 :=
+  regular_stop_upTo hs c0 ins ok
 
 /-- `LoadAllEntries` returns the log sorted by height, not in recording order (future-height
 messages are moved behind everything of lower heights). Replaying the sorted log reaches the same
@@ -167,37 +225,108 @@ theorem tendermint_quiet_never_equivocates (env : Juno.C12.Env) (node : Nat) :
     NoEquivocation (tmMachineQuiet env node) :=
   tmQuiet_noEquivocation env node
 
-/-- PARTIAL for juno's machine: the crash theorem for `tmMachineQuiet env node` (C12's transcription
-without the `TriggerSync` actions) with `ReplaySafeUpTo (tmMachineQuiet env node) r` as hypothesis;
-`NoEquivocation` is discharged. NOT discharged — exactly what is missing:
-1. the relation: `r m m'` := all fields equal except `lastTriggerSync`, `lastQuorum`, `valueCalls`, and
-   the vote counters equal up to EMPTY containers (`rounds`/`future` entries that are `RoundData.empty` /
-   `[]`), for environments with `totalPower h > 0` (else `quorumVP = 0` and an empty entry differs
-   observably from a missing one) and a constant `appValue` (a replay-stable `Application.Value()`;
-   without it the statement is false, finding F1);
-2. `Bisim`: congruence w.r.t. `r` of the ~25 functions of C12's `Model` (`addProposal`, `addVote`,
-   `getProposal`, the quorum queries, `startNewHeight`, `select`, the ten rule bodies,
-   `processLoopAux`, `processStart/Message/Proposal/Prevote/Precommit/Timeout`);
-3. the shape fields (`logged_or_inert`, `commit_last`, `no_commit_height`, `votes/timers_current_height`,
-   `timeout_entry_current`, `unstarted_silent`, `future_silent`) from the structure of those functions;
-4. `commute`: a future-height message only touches `future[h_a]`, a step on a lower-height input only
-   `rounds` / `future[h_b]`, and `startNewHeight` promotes exactly `future[h+1]`;
-5. `commit_reset`: `startNewHeight` of a counter that only saw height `h` is `VoteCounter.new (h+1)` up
-   to empty containers.
-For `tmMachine` itself (with `TriggerSync`) the hypothesis is FALSE for every `r`:
-`tendermint_with_sync_actions_is_not_replay_safe`. Until 1–5 are proved, what holds for juno's machine
-is tested on the real code: shape checks `hyp-*`, recovered state against the uncrashed live process and
-an uncrashed twin, pending timers and behaviour in a silent network, on every crash point taken. -/
+/-- **Every call of juno's machine (with the F5 fix) logs first.** For EVERY state of C12's
+transcription — reachable or not, started or not — and every input the driver can hand over, the
+call returns no action at all, or its first action is `WriteWAL e` with `e` re-feeding exactly this
+input, and no second entry is written. This is `logged_or_inert`'s shape, hence the hypothesis of
+`input_with_visible_effect_is_logged`, discharged for juno's machine. `tmMachineT` is the machine
+with proposed-fixes/C13-ignored-timeout-runs-rules.diff; for the code before that fix the statement
+is FALSE: `ignored_timeout_takes_pending_commit_unlogged`. -/
+theorem tendermint_fixed_logs_first (env : Juno.C12.Env) (node : Nat) (m : Juno.C12.Machine)
+    (i : Input) :
+    ((tmMachineT env node).step m i).2 = [] ∨
+    ∃ e rest, ((tmMachineT env node).step m i).2 = Action.writeWAL e :: rest ∧ e.toInput = i ∧
+      walOf rest = [] :=
+  tmT_logged_first env node m i
+
+/-- juno's machine with the F5 fix never equivocates in one uncrashed execution (a run of it is the
+run of C12's machine over the same entries minus the timeouts it ignores). -/
+theorem tendermint_fixed_never_equivocates (env : Juno.C12.Env) (node : Nat) :
+    NoEquivocation (tmQT env node) :=
+  tmQuietT_noEquivocation env node
+
+/-- **F5 (known), on the model of the code AS IT IS** (`tmMachineL`: `ProcessTimeout` runs the rules
+also for a timeout that `onTimeout*` ignored). Height 1, four equal validators, node 4: after the
+inputs `pendIns` (round 0 ends nil; round 1 re-proposes 7 with valid round 0; two prevotes and two
+precommits of round 1; then the third round-0 prevote arrives late) the node has broadcast its
+round-1 precommit for 7 — its own vote completes the quorum — but `process` only checks the commit
+rule for the round of the message just received (0), so the commit stays pending. The obsolete
+propose timer of round 1 then fires: nothing is logged, the call returns `[Commit 1 7]`. With the fix
+the same call returns nothing. -/
+theorem ignored_timeout_takes_pending_commit_unlogged :
+    (tm4L.step tmPend (.timeout 0 1 1)).2 = [Action.commit 1 7] ∧
+    (tm4T.step tmPend (.timeout 0 1 1)).2 = [] ∧
+    tmPend.isHeightStarted = true ∧
+    ((liveRun tm4L (tm4L.init 1) pendIns).2.drop 22 =
+      [.flush, .sendPrevote 1 1 (some 7), .setTimer 1 1 1, .flush, .sendPrecommit 1 1 (some 7),
+       .setTimer 2 1 1]) :=
+  tmL_ignored_timeout_takes_pending_commit
+
+/-- Hence juno's machine AS IT IS satisfies the recovery hypotheses for NO state equivalence: the
+crash theorems say nothing about it (their hypothesis is unsatisfiable), which is why Part 4 is about
+the machine with the fix. -/
+theorem tendermint_as_is_is_not_replay_safe (r : Setoid Juno.C12.Machine) :
+    ¬ ReplaySafeUpTo (quietOf tm4L) r :=
+  tmL_not_replaySafe_upTo r
+
+/-- **The shape half of the recovery hypotheses holds for juno's machine (with the fix).** For
+every validator set, application and node: `ReplaySafeUpTo (tmQT env node) r` follows from
+`ReplaySafeRest` alone. PROVED here, for all states and inputs, without any invariant: an input is
+not acted on at all or logged first with exactly its own entry (`tendermint_fixed_logs_first`); a
+`Start` / timeout entry carries the current height; the height never decreases, stays without a
+commit and moves by one with it; a commit is the LAST action, the only one, and leaves the next
+height not started; every own vote and every timer carries the current height; before `start`
+messages are only stored; a message or timeout of a future height makes nothing visible. -/
+theorem tendermint_fixed_shape (env : Juno.C12.Env) (node : Nat) (r : Setoid Juno.C12.Machine)
+    (h : ReplaySafeRest (tmQT env node) r) : ReplaySafeUpTo (tmQT env node) r :=
+  tmQT_replaySafeUpTo env node r h
+
+/-- **On the states that satisfy C12's invariant, only the state-relation part remains.**
+`tmQTI env node` is `tmQT env node` restricted to the states satisfying `MInv` (the vote counter is at
+the state's height; a stored proposal carries the height / round / proposer of its slot) — an
+invariant that holds initially and is preserved by EVERY call, also by an undisciplined one
+(`tmT_step_minv`); its runs perform literally the effects of `tmQT`'s. There the two facts
+`ReplaySafeRest` leaves open are PROVED (`tmQT_entry_height`: an accepted message is not below the
+current height; `tmQT_commit_height`: a commit is for the current height), so
+`ReplaySafeUpTo (tmQTI env node) r` follows from `ReplaySafeRel` alone. -/
+theorem tendermint_fixed_shape_on_invariant_states (env : Juno.C12.Env) (node : Nat)
+    (r : Setoid { m : Juno.C12.Machine // Juno.C12.MInv env m })
+    (h : ReplaySafeRel (tmQTI env node) r) : ReplaySafeUpTo (tmQTI env node) r :=
+  tmQTI_replaySafeUpTo env node r h
+
+/-- PARTIAL for juno's machine: the crash theorem for `tmQTI env node` — C12's transcription with the
+F5 fix (`tmMachineT`), without the `TriggerSync` actions, on its invariant states — with
+`ReplaySafeRel (tmQTI env node) r` as the only hypothesis. DISCHARGED for every validator set,
+application and node: `NoEquivocation` (`tmQTI_noEquivocation`, from C12's `run_no_double_vote`) and
+ALL shape fields of `ReplaySafeUpTo` (`tendermint_fixed_shape_on_invariant_states`). NOT discharged —
+exactly `ReplaySafeRel`, the part about the state relation:
+1. the relation `r m m'` := all fields equal except `lastTriggerSync`, `lastQuorum`, `valueCalls`, the
+   vote counters equal up to EMPTY containers (`RoundData.empty`, `[]`), for environments with
+   `totalPower h > 0` and a constant `appValue` (a replay-stable `Application.Value()`; without it the
+   statement is false, F1), and `Bisim`: congruence w.r.t. `r` of the ~25 functions of C12's `Model`;
+2. `inert_equiv`: a call that returns no action leaves an `r`-equivalent state (a rejected message
+   creates at most an empty container);
+3. `commute`: a future-height message only touches `future[h_a]`, a step on a lower-height input only
+   `rounds` / `future[h_b]`, `startNewHeight` promotes exactly `future[h+1]`;
+4. `commit_reset`: `startNewHeight` of a counter that only saw height `h` is `VoteCounter.new (h+1)`
+   up to empty containers.
+For the machine WITH `TriggerSync` the hypotheses are false for every `r`
+(`tendermint_with_sync_actions_is_not_replay_safe`); for the machine WITHOUT the F5 fix, too
+(`tendermint_as_is_is_not_replay_safe`). Until 1–4 are proved they are tested on the real code:
+recovered state against the uncrashed live process and an uncrashed twin, pending timers and behaviour
+in a silent network, on every crash point taken. -/
 theorem no_conflicting_vote_after_recovery_tendermint_partial (env : Juno.C12.Env) (node : Nat)
-    (r : Setoid Juno.C12.Machine) (hs : ReplaySafeUpTo (tmMachineQuiet env node) r) (c0 : Nat)
-    (n : Node) (hist : List Effect) (hm : Moment (tmMachineQuiet env node) c0 n hist)
+    (r : Setoid { m : Juno.C12.Machine // Juno.C12.MInv env m })
+    (hs : ReplaySafeRel (tmQTI env node) r) (c0 : Nat)
+    (n : Node) (hist : List Effect) (hm : Moment (tmQTI env node) c0 n hist)
     (cont : List Input)
-    (okc : ListenOK (tmMachineQuiet env node) (recover (tmMachineQuiet env node) n).1 cont) :
+    (okc : ListenOK (tmQTI env node) (recover (tmQTI env node) n).1 cont) :
     ∀ v ∈ votesOf hist,
-      ∀ w ∈ votesOf ((recover (tmMachineQuiet env node) n).2.1 ++
-        (liveRun (tmMachineQuiet env node) (recover (tmMachineQuiet env node) n).1 cont).2),
+      ∀ w ∈ votesOf ((recover (tmQTI env node) n).2.1 ++
+        (liveRun (tmQTI env node) (recover (tmQTI env node) n).1 cont).2),
       ¬ v.conflicts w :=
-  no_conflict_upTo hs (tmQuiet_noEquivocation env node) c0 n hist hm cont okc
+  no_conflict_upTo (tmQTI_replaySafeUpTo env node r hs) (tmQTI_noEquivocation env node) c0 n hist hm
+    cont okc
 
 /-- NEGATION for the machine WITH its `TriggerSync` actions (current code): the arguments of
 `TriggerSync` expose the sync bookkeeping (`lastTriggerSync`), which depends on whether a
@@ -262,6 +391,56 @@ theorem start_entry_with_next_height_breaks_replay_before_f170e6a :
     (recover M' n').1 = (liveRun M' (M'.init 4) [Input.start]).1 := by
   decide
 
+/-! ## Part 6 — the driver's block-sync logic (`ModelSync.lean`) -/
+
+/-- **The sync logic is an overlay.** `executeX` is `driver.execute` with `TriggerSync` really
+executed (`triggerSync`, `syncCurrentHeight`, `hasFutureQuorum`, the driver's `lastQuorum`). Whatever
+`lastQuorum` and the machine's height are, its log / broadcast / timer / commit effects are exactly
+`effectsOf` — so every theorem above (stated over `liveRun` / `replayRun`, where `TriggerSync` is
+only recorded) holds for the driver with its sync logic; one turn of `listen` for a message or
+timeout moves the machine as `liveRun` does and leaves `actions` = what the call returned. -/
+theorem sync_logic_is_an_overlay {S} (M : Machine S) :
+    (∀ (replaying : Bool) (smHeight : Nat) (d : Drv) (acts : List Action),
+      baseOf (executeX replaying smHeight d acts).2 = effectsOf replaying acts) ∧
+    (∀ (st : LState S) (i : Input),
+      (listenStep M st (.msg i)).1.s = (M.step st.s i).1 ∧
+      (listenStep M st (.msg i)).1.last = (M.step st.s i).2 ∧
+      baseOf (listenStep M st (.msg i)).2 = effectsOf false (M.step st.s i).2) :=
+  ⟨executeX_base, listenStep_msg M⟩
+
+/-- **Fetch decisions.** Executing an action list launches a block fetch only for the state machine's
+CURRENT height and only when a precommit quorum of a LATER height is known (`lastQuorum` after the
+call is above it); at most one fetch per list (the first `TriggerSync` that finds no future quorum
+known starts it); `lastQuorum` never decreases. -/
+theorem block_fetch_only_for_current_height_with_future_quorum (replaying : Bool) (smHeight : Nat)
+    (d : Drv) (acts : List Action) :
+    (∀ x ∈ fetchesOf (executeX replaying smHeight d acts).2,
+      x = smHeight ∧ (executeX replaying smHeight d acts).1.lastQuorum > smHeight) ∧
+    (fetchesOf (executeX replaying smHeight d acts).2).length ≤ 1 ∧
+    d.lastQuorum ≤ (executeX replaying smHeight d acts).1.lastQuorum :=
+  ⟨fun x hx => executeX_fetch_spec replaying smHeight d acts x hx,
+   executeX_at_most_one_fetch replaying smHeight d acts, executeX_mono replaying smHeight d acts⟩
+
+/-- **A failed block fetch re-executes the previous input's actions** (`listen`'s `actions` variable is
+not reset in that branch — the code as it is): the state machine is not called, its state and
+`actions` stay, and what the driver does is `execute(actions)` once more — a second `SetWALEntry` of
+the same entry, the same broadcasts, the same timers. The votes it broadcasts are exactly the votes
+of that action list, which were broadcast when it was executed the first time: no NEW vote, so a
+trace without conflicting votes stays without. A gossiped message of the sync pseudo-sender changes
+nothing at all. -/
+theorem stale_actions_after_failed_fetch_repeat_votes {S} (M : Machine S) (st : LState S)
+    (hist : List Effect)
+    (hlast : ∀ v ∈ votesOf (effectsOf false st.last), v ∈ votesOf hist)
+    (hok : ∀ v ∈ votesOf hist, ∀ w ∈ votesOf hist, ¬ v.conflicts w) :
+    (listenStep M st .syncErr).1.s = st.s ∧ (listenStep M st .syncErr).1.last = st.last ∧
+    baseOf (listenStep M st .syncErr).2 = effectsOf false st.last ∧
+    (∀ v ∈ votesOf (hist ++ baseOf (listenStep M st .syncErr).2),
+      ∀ w ∈ votesOf (hist ++ baseOf (listenStep M st .syncErr).2), ¬ v.conflicts w) ∧
+    listenStep M st .pseudo = (st, []) := by
+  obtain ⟨h1, h2, h3, h4⟩ := listenStep_syncErr M st
+  refine ⟨h1, h2, h3, ?_, rfl⟩
+  exact no_new_conflict_of_repeated hist _ (by rw [h4]; exact hlast) hok
+
 /-! ## Non-vacuity -/
 
 -- the crash theorem instantiated on a VOTING machine, on a history with two crashes, where votes
@@ -302,12 +481,49 @@ example : (liveRun (toyMachine (fun _ => true) (fun _ => 101)) (Toy.init 4) [Inp
     [.append (.start 4), .flush, .sendProposal 4 0 (-1) 101, .flush, .sendPrevote 4 0 (some 101)] := by
   decide
 
+-- `error_stop_is_a_crash_point`: the toy proposer's second flush (in front of its prevote) fails;
+-- `Close` flushes: the stopped node is the node after the first four effects, the prevote is not sent
+example :
+    let M := toyMachine (fun _ => true) (fun _ => 101)
+    let tr := (liveRun M (M.init 4) [Input.start]).2
+    tr = [.append (.start 4), .flush, .sendProposal 4 0 (-1) 101] ++ Effect.flush :: [.sendPrevote 4 0 (some 101)] ∧
+      stopTrace tr 3 true = [.append (.start 4), .flush, .sendProposal 4 0 (-1) 101, .flush] ∧
+      visibleOf (stopTrace tr 3 true) = [.sendProposal 4 0 (-1) 101] := by
+  decide
+
+-- the sync logic: a `TriggerSync 1 3` at height 1 with nothing known starts the fetch of block 1
+-- and raises `lastQuorum` to 3; a second one does not fetch again; at height 3 nothing is fetched
+example :
+    executeX false 1 {} [.writeWAL (.precommit 3 0 3 (some 9)), .triggerSync 1 3, .triggerSync 2 5] =
+      ({ lastQuorum := 5 }, [.base (.append (.precommit 3 0 3 (some 9))), .base (.sync 1 3), .fetch 1,
+        .base (.sync 2 5)]) ∧
+    fetchesOf (executeX false 3 { lastQuorum := 3 } [.triggerSync 1 3]).2 = [] := by
+  decide
+
+-- a failed fetch after the toy proposer's `start`: the proposal and the prevote are sent again
+example :
+    let M := toyMachine (fun _ => true) (fun _ => 101)
+    let st : LState Toy := (listenStep M { s := M.init 4, d := {}, last := [] } (.msg .start)).1
+    votesOf (baseOf (listenStep M st .syncErr).2) = [⟨.prevote, 4, 0, some 101⟩] ∧
+      (listenStep M st .syncErr).1.s = st.s := by
+  decide
+
+-- `tendermint_fixed_logs_first` is not about empty action lists only: the late round-0 prevote of
+-- the F5 scenario is logged first and followed by two broadcasts and two timers, no second entry
+example :
+    (tm4T.step (liveRun tm4T (tm4T.init 1) pendIns.dropLast).1 (.prevote 1 0 3 (some 7))).2 =
+      [.writeWAL (.prevote 1 0 3 (some 7)), .broadcastPrevote 1 1 (some 7), .scheduleTimeout 1 1 1,
+       .broadcastPrecommit 1 1 (some 7), .scheduleTimeout 2 1 1] := by
+  decide
+
 /-
 NOT covered by a theorem about the CURRENT code (see notes/C13.md, "Coverage"):
 * `ReplaySafeUpTo` for juno's machine (`…_tendermint_partial` above) — tested by the harness only;
-* the block-sync path (`TriggerSync` is executed by the driver, `ProcessSync`, `syncListener`,
-  including the re-execution of stale actions after a failed fetch, driver.go:149-162);
-* error returns of `execute` (`Flush` failing, commit refused) — harness fault injection only;
+* recovery theorems for runs that CONTAIN the sync-only steps (a fetched block = `ProcessSync`, whose
+  action list has two log entries; a failed fetch, which appends an entry twice): Part 6 proves
+  what these steps do, `Moment` histories do not include them (tested: sync family of the harness);
+* error returns of `execute` other than a failing `Flush` / a refused commit (`SetWALEntry`,
+  `DeleteWALEntries` failing): harness fault injection + model `stopTrace` only;
 * the chain advancing without the driver (blocks stored by the sync service while the validator is
   down): only `recovery_equals_live_run`'s resume-height clause holds for arbitrary images;
 * conflicting re-PROPOSALS (only prevotes and precommits are in `votesOf`, as in the property text);
